@@ -232,7 +232,7 @@ func (x *ctx) do(line string) string {
 		}
 		x.env = nil
 		x.holders = map[int]*holder{}
-		if f[1] == "asis" || (len(f[1]) == 4 && strings.Trim(f[1], "01") == "") {
+		if f[1] == "asis" || (len(f[1]) == 5 && strings.Trim(f[1], "01") == "") {
 			out = "ok"
 		}
 	case len(f) >= 3 && f[0] == "new":
@@ -492,7 +492,7 @@ func main() {
 	// gen: sweep every (env, variant) pair round-robin, starting at a seed-dependent offset, until
 	// at least a.N ops have been executed (always at least one full sweep of the small list in
 	// quick mode is NOT forced: the seeds of a run cover different parts).
-	// VERIF_C18_FIXES=<4 bits> when the tree under test has fixes/C18-*.diff applied (see Driver/Heap.lean)
+	// VERIF_C18_FIXES=<5 bits> when the tree under test has fixes/C18-*.diff applied (see Driver/Heap.lean)
 	fixes := os.Getenv("VERIF_C18_FIXES")
 	if fixes == "" {
 		fixes = "asis"
